@@ -486,6 +486,7 @@ def train_td3(
                 logger.stop_episode(steps_per_episode)
             episode_idx += 1
             if total_episodes is not None and episode_idx >= total_episodes:
+                step += 1  # count the step that ended the last episode
                 break
             if logger is not None:
                 logger.start_new_episode()
